@@ -228,7 +228,18 @@ def main():
                     except ValueError:
                         pass
                     continue
-                gs, gt = IH.newton_refine(float(s), arr, float(t), arr2)
+                singular_scale = (abs(a) + abs(c)) * (abs(b) + abs(d))
+                try:
+                    gs, gt = IH.newton_refine(float(s), arr, float(t), arr2)
+                except ValueError:
+                    # documented: raised when the Jacobian is singular; legitimate iff det J = 0 (up to rounding)
+                    if f[0] == 0 and f[1] == 0:
+                        res.failure("newton-noop-raised", "F(s,t)=0 exactly but newton_refine raised", rc)
+                    elif abs(det) > 2 ** 10 * U * singular_scale:
+                        res.failure("newton-singular-raised-wrongly", "newton_refine raised ValueError although det J = %s is far from 0" % float(det), rc)
+                    else:
+                        res.skip("singular Jacobian (documented ValueError)")
+                    continue
                 if kind == "newton-intersect-noop":
                     if (gs, gt) != (float(s), float(t)):
                         res.failure("newton-noop-moved", "F(s,t)=0 exactly but newton_refine moved the point", rc)
